@@ -15,15 +15,19 @@ Usage:  python -m translate.workflows [out.lean]      (PYTHONPATH must contain t
 from __future__ import annotations
 
 import asyncio
+import contextlib
 import copy
 import hashlib
 import itertools as it
 import json
 import logging
+import random
 import sys
 import warnings
 from pathlib import Path
 from typing import Any
+
+import numpy as np
 
 from bqskit.ir.circuit import Circuit  # noqa: F401  (import order matters)
 import bqskit.compiler.compile as cc
@@ -117,10 +121,11 @@ class Ctx:
         self.input, self.mname = inp, mname
         self.classes: set[str] = set()
         self.nodes = 0
+        self.depth = 0      # ForEachBlockPass nesting of the node being serialised
 
     def classify(self, gates) -> dict:
         e = {'sq': False, 'g2': False, 'many': False, 'nmany': False,
-             'fails': False}
+             'fails': False, 'raise1': False, 'raiseN': False}
         for g in gates:
             if isinstance(g, (BarrierPlaceholder, MeasurementPlaceholder)):
                 continue
@@ -145,47 +150,341 @@ class Ctx:
         return d
 
 
-def emit_layer_gen(ctx: Ctx, p) -> dict:
-    """Gates the synthesis leaf's EFFECTIVE layer generator can produce."""
-    gates: set = set()
-    ok = False
-    err = ''
-    from bqskit.passes.search.generators.single import SingleQuditLayerGenerator
-    widths = [1] if isinstance(p.layer_gen, SingleQuditLayerGenerator) else [
-        w for w in (2, 3) if w <= max(2, ctx.max_synth)]
-    for wd in widths:
-        try:
-            q = copy.deepcopy(p)
-            d = ctx.sub_data(wd)
-            lg = q._get_layer_gen(d)
-            tgt = UnitaryMatrix.identity(ctx.radix ** wd, [ctx.radix] * wd)
-            init = lg.gen_initial_layer(tgt, d)
-            gates |= set(init.gate_set)
-            for s in lg.gen_successors(init, d):
-                gates |= set(s.gate_set)
-                for s2 in lg.gen_successors(s, d)[:4]:
-                    gates |= set(s2.gate_set)
-            ok = True
-        except Exception as ex:  # the generator cannot run at this width
-            err = f'{type(ex).__name__}'
-    e = ctx.classify(gates)
-    e['fails'] = not ok
-    e['_gates'] = sorted(g.name for g in gates)
-    e['_err'] = err
+# ------------------------------------------------ dummy runs of numeric leaves
+class LocalRuntime:
+    """A RuntimeHandle that runs every mapped task in this process, in order (passes only use
+    `get_runtime().map` / `.submit`).  Used by the translator to RUN numeric leaves on dummy
+    blocks and by the harness to diagnose a compile() that raised / lost its runtime."""
+
+    async def map(self, fn, *args, **kwargs):
+        import inspect
+        kwargs.pop('log_context', None)
+        kwargs.pop('task_name', None)
+        out = []
+        for a in zip(*args):
+            r = fn(*a, **kwargs)
+            if inspect.isawaitable(r):
+                r = await r
+            out.append(r)
+        return out
+
+    async def submit(self, fn, *args, **kwargs):
+        import inspect
+        kwargs.pop('log_context', None)
+        kwargs.pop('task_name', None)
+        r = fn(*args, **kwargs)
+        if inspect.isawaitable(r):
+            r = await r
+        return r
+
+    def get_cache(self):
+        return {}
+
+
+@contextlib.contextmanager
+def local_runtime():
+    import bqskit.runtime.worker as rw
+    old = rw._worker
+    rw._worker = LocalRuntime()
+    try:
+        yield
+    finally:
+        rw._worker = old
+
+
+class DummyTimeout(Exception):
+    pass
+
+
+@contextlib.contextmanager
+def _alarm(seconds: int):
+    import signal
+
+    def handler(signum, frame):
+        raise DummyTimeout(f'dummy run exceeded {seconds}s')
+    try:
+        old = signal.signal(signal.SIGALRM, handler)
+    except ValueError:          # not in the main thread: no limit
+        yield
+        return
+    signal.alarm(seconds)
+    try:
+        yield
+    finally:
+        signal.alarm(0)
+        signal.signal(signal.SIGALRM, old)
+
+
+def sig(x, depth: int = 0) -> str:
+    """A stable description of a pass object's configuration (memo key of the dummy runs)."""
+    if depth > 6:
+        return '...'
+    if isinstance(x, (bool, int, float, str, type(None))):
+        return repr(x)
+    if isinstance(x, dict):
+        return '{' + ','.join(f'{k}:{sig(v, depth + 1)}'
+                              for k, v in sorted(x.items(), key=lambda kv: str(kv[0]))) + '}'
+    if isinstance(x, (list, tuple)):
+        return '[' + ','.join(sig(v, depth + 1) for v in x) + ']'
+    if isinstance(x, (set, frozenset)):
+        return '{' + ','.join(sorted(sig(v, depth + 1) for v in x)) + '}'
+    name = type(x).__name__
+    if hasattr(x, 'name') and isinstance(getattr(x, 'name', None), str) \
+            and hasattr(x, 'num_qudits'):
+        return f'{name}<{x.name}>'                       # a gate
+    if callable(x) and hasattr(x, '__qualname__'):
+        return f'fn<{x.__qualname__}>'
+    try:
+        d = vars(x)
+    except TypeError:
+        return name
+    return name + '(' + ','.join(
+        f'{k}={sig(v, depth + 1)}' for k, v in sorted(d.items())) + ')'
+
+
+def haar(dim: int, seed: int):
+    nr = np.random.RandomState(seed)
+    z = nr.randn(dim, dim) + 1j * nr.randn(dim, dim)
+    q, r = np.linalg.qr(z)
+    return q * (np.diag(r) / np.abs(np.diag(r)))
+
+
+def as_target(tk: str, u, radixes):
+    """A target of kind `tk` that the unitary `u` reaches."""
+    if tk == 'unitary':
+        return UnitaryMatrix(u, radixes)
+    zero = np.zeros(u.shape[0], dtype=complex)
+    zero[0] = 1
+    sv = StateVector(u @ zero, radixes)
+    if tk == 'state':
+        return sv
+    return StateSystem({StateVector(zero, radixes): sv})
+
+
+def dummy_target(tk: str, wd: int, radix: int, seed):
+    """seed None: the trivial target (identity / |0..0> / {|0..0> -> |0..0>}); else generic."""
+    dim = radix ** wd
+    u = np.eye(dim, dtype=complex) if seed is None else haar(dim, seed)
+    return as_target(tk, u, [radix] * wd)
+
+
+_MEMO: dict[str, dict] = {}
+DUMMY_TIME: dict = {}
+DUMMY_LOG: list[str] = []     # every dummy run that raised (printed by __main__)
+
+
+def target_kind(ctx: Ctx) -> str:
+    """Kind of `data.target` a leaf at the current nesting sees: inside a ForEachBlockPass the
+    block's own unitary; at the top level of a state / state-system workflow the user's target."""
+    if ctx.depth == 0 and ctx.kind in ('state', 'system'):
+        return ctx.kind
+    return 'unitary'
+
+
+def leaf_widths(ctx: Ctx, cap: int = 3) -> list[int]:
+    """Circuit widths a leaf at the current nesting can be run on: at the top level of a
+    unitary / state / state-system workflow exactly the input's width; inside blocks (and in
+    circuit workflows) 1 .. max_synthesis_size (capped at `cap` for the dummy runs)."""
+    if ctx.depth == 0 and ctx.kind != 'circuit':
+        return [ctx.width]
+    return [w for w in (1, 2, 3) if w <= min(cap, max(2, ctx.max_synth))]
+
+
+def single_start(q):
+    """Dummy runs use one starting point (the number of starts changes neither the
+    instantiater that is selected nor how it is constructed)."""
+    if isinstance(getattr(q, 'instantiate_options', None), dict) \
+            and q.instantiate_options.get('multistarts', 1) != 1:
+        q.instantiate_options = {**q.instantiate_options, 'multistarts': 1}
+
+
+def first_step_only(p):
+    """A copy of a search-based synthesis leaf (or of a wrapper that owns one) that accepts its
+    initial layer: target handling, frontier and the first `Circuit.instantiate` (instantiater
+    selection, cost generator / minimizer pairing) run exactly as in the real leaf, the search
+    loop does not (with the residual cost of state targets it may run for minutes)."""
+    q = copy.deepcopy(p)
+    for x in (q, getattr(q, 'inner_synthesis', None)):
+        if x is not None and hasattr(x, 'success_threshold'):
+            x.success_threshold = 1.0
+            single_start(x)
+    return q
+
+
+def one_expansion_only(p):
+    """A copy of a search-based synthesis leaf with `max_layer = 1`: the initial layer is
+    instantiated against the real threshold and, when it misses, expanded ONCE (the search of a
+    constant single-qudit gate set would otherwise run without bound)."""
+    q = copy.deepcopy(p)
+    q.max_layer = 1
+    single_start(q)
+    return q
+
+
+def try_run(p, circ: Circuit, d: PassData, limit: int = 120) -> str:
+    """Run the REAL leaf (deep copy) in this process; '' or what it raised."""
+    np.random.seed(20240923)
+    random.seed(20240923)
+    try:
+        with local_runtime(), _alarm(limit):
+            run_pass(p, circ, d)
+        return ''
+    except DummyTimeout:
+        raise UnknownConstruct(
+            f'dummy run of {type(p).__name__} did not finish in {limit}s')
+    except Exception as ex:
+        return f'{type(ex).__name__}: {str(ex)[:70]}'.replace('\n', ' ')
+
+
+def memo(ctx: Ctx, p, extra: str, compute, cap: int = 3) -> dict:
+    key = '|'.join([
+        sig(p), ctx.kind if ctx.depth == 0 else 'block', str(ctx.depth > 0),
+        str(leaf_widths(ctx, cap)), str(ctx.radix),
+        ','.join(sorted(g.name for g in ctx.model.gate_set)), extra])
+    if key not in _MEMO:
+        import time as _t
+        t0 = _t.time()
+        _MEMO[key] = compute()
+        k2 = f'{type(p).__name__}/{extra}'
+        DUMMY_TIME[k2] = DUMMY_TIME.get(k2, 0.0) + _t.time() - t0
+        DUMMY_TIME[k2 + '/n'] = DUMMY_TIME.get(k2 + '/n', 0) + 1
+        for wd, err in sorted(_MEMO[key].get('_errs', {}).items()):
+            DUMMY_LOG.append(
+                f'{type(p).__name__} kind={ctx.kind} depth={ctx.depth} '
+                f'model={ctx.mname} L{ctx.level} width={wd}: {err}')
+    return dict(_MEMO[key])
+
+
+def set_errs(e: dict, errs: dict) -> dict:
+    e['raise1'] = 1 in errs
+    e['raiseN'] = any(w > 1 for w in errs)
+    e['_errs'] = errs
     return e
 
 
-def run_pass(p, circ: Circuit, d: PassData):
-    with warnings.catch_warnings():
-        warnings.simplefilter('ignore')
-        asyncio.run(copy.deepcopy(p).run(circ, d))
+def emit_synth(ctx: Ctx, p) -> dict:
+    """A search-based synthesis leaf: gates its EFFECTIVE layer generator can produce (initial
+    layer + two generations of successors) and whether the REAL leaf raises when it is run on a
+    dummy target of the kind / width it sees: (A) the trivial target with the initial layer
+    accepted -- target handling, frontier, instantiater selection and the cost-generator /
+    minimizer pairing of `Circuit.instantiate` under the leaf's own instantiate options --;
+    (B) a generic target with the real threshold and ONE expansion (`max_layer = 1`): the
+    successors are generated and instantiated too.  (B) is skipped for one-qudit BLOCKS (whether
+    the initial layer of a block suffices is the numeric hypothesis numOK; at the top level of a
+    unitary / state / state-system workflow three generic targets are tried) and for blocks
+    wider than two qudits (cost)."""
+    from bqskit.passes.search.generators.single import SingleQuditLayerGenerator
+
+    def compute():
+        tk = target_kind(ctx)
+        gates: set = set()
+        errs: dict[int, str] = {}
+        single = isinstance(p.layer_gen, SingleQuditLayerGenerator)
+        for wd in leaf_widths(ctx):
+            if single and wd > 1:
+                continue
+            try:
+                q = copy.deepcopy(p)
+                d = ctx.sub_data(wd)
+                lg = q._get_layer_gen(d)
+                tgt = dummy_target(tk, wd, ctx.radix, None)
+                init = lg.gen_initial_layer(tgt, d)
+                gates |= set(init.gate_set)
+                if wd > 1 or single:
+                    for s in lg.gen_successors(init, d):
+                        gates |= set(s.gate_set)
+                        for s2 in lg.gen_successors(s, d)[:4]:
+                            gates |= set(s2.gate_set)
+            except Exception as ex:  # the generator cannot run at this width
+                errs[wd] = f'layer generator: {type(ex).__name__}: {str(ex)[:60]}'
+                continue
+            top = ctx.depth == 0 and ctx.kind != 'circuit'
+            generic = [1, 2, 3] if (wd == 1 and top) else (
+                [1] if (wd == 2 or (wd > 2 and top)) else [])
+            for seed in [None] + generic:
+                c = Circuit(wd, [ctx.radix] * wd)
+                d = ctx.sub_data(wd)
+                d.target = dummy_target(tk, wd, ctx.radix, seed)
+                err = try_run(first_step_only(p) if seed is None
+                              else one_expansion_only(p), c, d)
+                if err:
+                    errs[wd] = err
+                    break
+                gates |= set(c.gate_set)
+        e = ctx.classify(gates)
+        e['_gates'] = sorted(g.name for g in gates)
+        return set_errs(e, errs)
+    return memo(ctx, p, 'synth', compute)
 
 
-def emit_leaf(ctx: Ctx, name: str, p) -> dict | None:
+def native_dummy(ctx: Ctx, wd: int, seed: int = 7) -> Circuit:
+    """A small circuit of the model's own gates (general single-qudit gate, one native
+    multi-qudit gate that fits, a single-qudit gate again)."""
     r = ctx.radix
-    if name in ('QSearchSynthesisPass', 'LEAPSynthesisPass'):
-        return emit_layer_gen(ctx, p)
-    if name == 'AutoRebase2QuditGatePass':
+    nr = np.random.RandomState(seed)
+    gs = ctx.model.gate_set
+    try:
+        sq = gs.get_general_sq_gate()
+    except Exception:
+        sq = None
+    if sq is None or sq.num_qudits != 1:
+        sq = U3Gate() if r == 2 else VariableUnitaryGate(1, [r])
+    c = Circuit(wd, [r] * wd)
+
+    def layer(qs):
+        for q in qs:
+            if isinstance(sq, VariableUnitaryGate):
+                params = list(sq.calc_params(UnitaryMatrix(haar(r, nr.randint(1 << 30)), [r])))
+            else:
+                params = list(nr.uniform(-3, 3, sq.num_params))
+            c.append_gate(sq, q, params)
+    layer([0])
+    mqs = sorted((g for g in gs if 1 < g.num_qudits <= wd),
+                 key=lambda g: (g.num_qudits, g.name))
+    if mqs:
+        g = mqs[0]
+        c.append_gate(g, list(range(g.num_qudits)),
+                      list(nr.uniform(-3, 3, g.num_params)))
+        layer([g.num_qudits - 1])
+    return c
+
+
+def emit_scan(ctx: Ctx, p) -> dict:
+    """ScanningGateRemovalPass run on a small circuit of native gates whose own unitary / state /
+    state map is the target (so every removal attempt calls Circuit.instantiate with the leaf's
+    cost generator and instantiate options)."""
+    def compute():
+        tk = target_kind(ctx)
+        errs: dict[int, str] = {}
+        for wd in leaf_widths(ctx, 2):
+            c = native_dummy(ctx, wd)
+            d = ctx.sub_data(wd)
+            d.target = as_target(tk, c.get_unitary().numpy, [ctx.radix] * wd)
+            err = try_run(p, c, d)
+            if err:
+                errs[wd] = err
+        return set_errs(ctx.classify([]), errs)
+    return memo(ctx, p, 'scan', compute, 2)
+
+
+def foreign_2q(ctx: Ctx):
+    """A two-qudit gate that is not native and is one native gate deep."""
+    r = ctx.radix
+    if r == 2:
+        for g in (CZGate(), CNOTGate(), SwapGate()):
+            if g not in ctx.model.gate_set:
+                return g
+    nat = sorted((g for g in ctx.model.gate_set if g.num_qudits == 2),
+                 key=lambda g: g.name)
+    if not nat or nat[0].num_params:
+        return None
+    u = nat[0].get_unitary().numpy @ np.kron(haar(r, 11), haar(r, 12))
+    return ConstantUnitaryGate(UnitaryMatrix(u, [r, r]))
+
+
+def emit_rebase(ctx: Ctx, p) -> dict:
+    def compute():
+        errs: dict[int, str] = {}
         try:
             new = [g for g in ctx.model.gate_set if g.num_qudits == 2]
             sq = ctx.model.gate_set.get_general_sq_gate()
@@ -197,7 +496,57 @@ def emit_leaf(ctx: Ctx, name: str, p) -> dict | None:
         except Exception:
             e = ctx.classify([])
             e['fails'] = True
-        return e
+            return e
+        # the whole leaf on a two-qudit block holding one foreign two-qudit gate
+        g = foreign_2q(ctx)
+        if g is not None:
+            r = ctx.radix
+            c = Circuit(2, [r, r])
+            c.append_gate(g, (0, 1))
+            d = ctx.sub_data(2)
+            d.target = c.get_unitary()
+            err = try_run(p, c, d)
+            if err:
+                errs[2] = err
+        return set_errs(e, errs)
+    return memo(ctx, p, 'rebase', compute)
+
+
+def emit_wrap(ctx: Ctx, p) -> dict:
+    """EmbedAllPermutationsPass / PermutationAwareSynthesisPass: the REAL wrapper (with its inner
+    synthesis pass) run on the trivial target of the kind / width it sees."""
+    from bqskit.passes.mapping.topology import SubtopologySelectionPass
+
+    def compute():
+        tk = target_kind(ctx)
+        errs: dict[int, str] = {}
+        for wd in leaf_widths(ctx, 2):
+            c = Circuit(wd, [ctx.radix] * wd)
+            d = ctx.sub_data(wd)
+            d.target = dummy_target(tk, wd, ctx.radix, None)
+            d[SubtopologySelectionPass.key] = {
+                k: [CouplingGraph.all_to_all(k)] for k in range(1, wd + 1)}
+            err = try_run(first_step_only(p), c, d)
+            if err:
+                errs[wd] = err
+        return set_errs(ctx.classify([]), errs)
+    return memo(ctx, p, 'wrap', compute, 2)
+
+
+def run_pass(p, circ: Circuit, d: PassData):
+    with warnings.catch_warnings():
+        warnings.simplefilter('ignore')
+        asyncio.run(copy.deepcopy(p).run(circ, d))
+
+
+def emit_leaf(ctx: Ctx, name: str, p) -> dict | None:
+    r = ctx.radix
+    if name in ('QSearchSynthesisPass', 'LEAPSynthesisPass'):
+        return emit_synth(ctx, p)
+    if name == 'ScanningGateRemovalPass':
+        return emit_scan(ctx, p)
+    if name == 'AutoRebase2QuditGatePass':
+        return emit_rebase(ctx, p)
     if name == 'FillSingleQuditGatesPass':
         try:
             mq = sorted((g for g in ctx.model.gate_set if g.num_qudits > 1),
@@ -219,7 +568,7 @@ def emit_leaf(ctx: Ctx, name: str, p) -> dict | None:
         try:
             c = Circuit(1, [r])
             v = VariableUnitaryGate(1, [r])
-            c.append_gate(v, 0, v.calc_params(UnitaryMatrix.random(1, [r])))
+            c.append_gate(v, 0, v.calc_params(UnitaryMatrix(haar(r, 5), [r])))
             d = ctx.sub_data(1)
             run_pass(p, c, d)
             e = ctx.classify(c.gate_set)
@@ -233,8 +582,8 @@ def emit_leaf(ctx: Ctx, name: str, p) -> dict | None:
 def lean_emit(e: dict | None) -> str:
     if e is None:
         return ''
-    parts = [f'{k} := true' for k in ('sq', 'g2', 'many', 'nmany', 'fails')
-             if e.get(k)]
+    parts = [f'{k} := true' for k in ('sq', 'g2', 'many', 'nmany', 'fails',
+                                       'raise1', 'raiseN') if e.get(k)]
     return 'emit := { ' + ', '.join(parts) + ' }' if parts else ''
 
 
@@ -367,7 +716,11 @@ def ser(ctx: Ctx, pool: Pool, p) -> str:
         extra = [k for k in nested_passes(p) if k != 'workflow']
         if extra:
             raise UnknownConstruct(f'ForEachBlockPass owns passes in {extra}')
-        body = ser(ctx, pool, p.workflow)
+        ctx.depth += 1
+        try:
+            body = ser(ctx, pool, p.workflow)
+        finally:
+            ctx.depth -= 1
         return pool.intern(f'(.foreach {{ {", ".join(opts)} }} {body})')
     if n in WRAP:
         kind, attr = WRAP[n]
@@ -375,7 +728,8 @@ def ser(ctx: Ctx, pool: Pool, p) -> str:
         if extra:
             raise UnknownConstruct(f'{n} owns passes in {extra}')
         inner = ser(ctx, pool, getattr(p, attr))
-        return pool.intern(f'(.wrap .{kind} {{}} {inner})')
+        em = lean_emit(emit_wrap(ctx, p))
+        return pool.intern(f'(.wrap .{kind} {{ {em} }} {inner})')
     if n not in LEAF:
         raise UnknownConstruct(f'unknown pass class {n}')
     extra = nested_passes(p)
@@ -510,10 +864,13 @@ def model_facts(model: MachineModel, width: int, radix: int) -> dict:
         AllConstantSingleQuditGates, HasGeneralSingleQuditGate,
         NoSingleQuditGatesInModel, ZXGatePredicate,
     )
+    from bqskit.ir.opt.instantiaters import Minimization, instantiater_order
     c = Circuit(1, [radix])
     d = PassData(c)
     d.model = model
     gs = model.gate_set
+    # a circuit of the model's own gates, asked of the REAL instantiaters
+    probe = native_dummy(Ctx('circuit', 1, 2, radix, model, 3, False, None, ''), 2)
     mq = [g.num_qudits for g in gs if g.num_qudits > 1]
     n = model.num_qudits
     edges = set(tuple(sorted(e)) for e in model.coupling_graph)
@@ -530,6 +887,8 @@ def model_facts(model: MachineModel, width: int, radix: int) -> dict:
         'swapNative': (SwapGate(radix) if radix != 2 else SwapGate()) in gs,
         'allToAll': len(edges) == n * (n - 1) // 2,
         'prefixCoupled': width == 1 or sub.is_fully_connected(),
+        'minCapable': Minimization.is_capable(probe),
+        'anyCapable': any(i.is_capable(probe) for i in instantiater_order),
     }
 
 
@@ -542,6 +901,8 @@ def lean_facts(f: dict) -> str:
 def generate(out: Path = OUT) -> dict:
     logging.disable(logging.WARNING)
     pool = Pool()
+    _MEMO.clear()
+    del DUMMY_LOG[:]
     wfs = []
     info = []
     all_classes: set[str] = set()
@@ -620,6 +981,26 @@ def generate(out: Path = OUT) -> dict:
         and m == 'wide-line-cx-u3' and w == 2 and l == 1,
         'witL4W1Wide': lambda k, l, m, w: k == 'circuit'
         and m == 'wide-line-cx-u3' and w == 1 and l == 4,
+        'witStateWide': lambda k, l, m, w: k == 'state'
+        and m == 'wide-line-cx-u3' and w == 2 and l == 1,
+        'witCzVaruCircuit': lambda k, l, m, w: k == 'circuit'
+        and m == 'line-cz-varu' and w == 2 and l == 1,
+        'witCzVaruUnitary': lambda k, l, m, w: k == 'unitary'
+        and m == 'line-cz-varu' and w == 2 and l == 1,
+        'witCzVaruUnitary1Q': lambda k, l, m, w: k == 'unitary'
+        and m == 'line-cz-varu' and w == 1 and l == 1,
+        'witStateL4': lambda k, l, m, w: k == 'state' and m == 'a2a-cx-u3'
+        and w == 2 and l == 4,
+        'witSystemL4': lambda k, l, m, w: k == 'system' and m == 'a2a-cx-u3'
+        and w == 2 and l == 4,
+        'witState1Q': lambda k, l, m, w: k == 'state' and m == 'a2a-cx-u3'
+        and w == 1 and l == 2,
+        'witSystem1Q': lambda k, l, m, w: k == 'system' and m == 'a2a-cx-u3'
+        and w == 1 and l == 1,
+        'witQutritState': lambda k, l, m, w: k == 'state'
+        and m == 'a2a-qutrit' and w == 2 and l == 1,
+        'witStateL2': lambda k, l, m, w: k == 'state' and m == 'a2a-cx-u3'
+        and w == 2 and l == 2,
         'witNoSQ': lambda k, l, m, w: k == 'circuit'
         and m == 'line-cx-nosq' and w == 5 and l == 1,
         'witResynth': lambda k, l, m, w: k == 'circuit'
@@ -647,6 +1028,8 @@ def generate(out: Path = OUT) -> dict:
         'nodes_max': max(i['nodes'] for i in info if 'nodes' in i),
         'refused': [i['name'] for i in info if 'refused' in i],
         'names': [w[0] for w in wfs],
+        'dummy_raises': sorted(set(DUMMY_LOG)),
+        'dummy_time': {k: round(v, 1) for k, v in DUMMY_TIME.items()},
     }
     return summary
 
